@@ -1168,6 +1168,46 @@ func ruleCallee(c *Ctx) *RuleResult {
 }
 
 // P-SLICE0: a zero step is an error for every array.
+// derivedFromElem: v is (a field of / a copy of) element k of some slice or
+// array: followed through field reads, loads, and local variables that are
+// stored exactly once.
+func derivedFromElem(v ssa.Value, k int64, depth int) bool {
+	if depth > 8 {
+		return false
+	}
+	switch v := v.(type) {
+	case *ssa.Field:
+		return derivedFromElem(v.X, k, depth+1)
+	case *ssa.FieldAddr:
+		return derivedFromElem(v.X, k, depth+1)
+	case *ssa.UnOp:
+		if v.Op == token.MUL {
+			return derivedFromElem(v.X, k, depth+1)
+		}
+	case *ssa.IndexAddr:
+		if i, ok := constInt(v.Index); ok && i == k {
+			return true
+		}
+	case *ssa.Index:
+		if i, ok := constInt(v.Index); ok && i == k {
+			return true
+		}
+	case *ssa.Alloc:
+		var stored ssa.Value
+		n := 0
+		for _, rf := range *v.Referrers() {
+			if st, ok := rf.(*ssa.Store); ok && st.Addr == v {
+				stored = st.Val
+				n++
+			}
+		}
+		if n == 1 {
+			return derivedFromElem(stored, k, depth+1)
+		}
+	}
+	return false
+}
+
 func ruleSliceStepZero(c *Ctx) *RuleResult {
 	r := &RuleResult{Doc: "slice(): every success return follows a successful computeSliceParams; computeSliceParams: every success return follows the false edge of the 'step specified and == 0' test", Floor: 2}
 	sl, cp := c.sliceFns()
@@ -1240,7 +1280,7 @@ func ruleSliceStepZero(c *Ctx) *RuleResult {
 				continue
 			}
 			// the third slice parameter: an element [2] of the parameter list
-			if sx := c.symStr(x, 0); !strings.Contains(sx, "[2]") {
+			if sx := c.symStr(x, 0); !strings.Contains(sx, "[2]") && !derivedFromElem(x, 2, 0) {
 				continue
 			}
 			found = true
